@@ -4,6 +4,9 @@ import (
 	"fmt"
 )
 
+// maxOperandBytes: no instruction reads more than this many octets after its opcode (skip is at most 24)
+const maxOperandBytes = 25
+
 // Currently keep for refine host-call -> invoke host-call transition
 // per-instruction based of (A.1) ψ_1,
 func (interp *Interpreter) SingleStepInvoke(pc ProgramCounter) (ExitReason, ProgramCounter) {
@@ -45,6 +48,17 @@ func (interp *Interpreter) SingleStepStateTransition(pc ProgramCounter) (ExitRea
 	}
 	// (v0.7.1  A.20) l = skip(iota)
 	skipLength := ProgramCounter(skip(int(pc), interp.Program.Bitmasks))
+
+	// (A.4) the code is followed by zeros: the handlers read up to maxOperandBytes octets after the opcode
+	// without checking, so an instruction that ends within that distance of the end runs on a padded copy
+	if code := interp.Program.InstructionData; int(pc)+1+maxOperandBytes > len(code) {
+		padded := *interp.Program
+		padded.InstructionData = make(ProgramCode, int(pc)+1+maxOperandBytes)
+		copy(padded.InstructionData, code)
+		original := interp.Program
+		interp.Program = &padded
+		defer func() { interp.Program = original }()
+	}
 
 	exitReason, newPC := execInstructions[opcodeData](interp, pc, skipLength) // update PVM states
 
